@@ -15,8 +15,8 @@ RULE = (
 )
 ASSUMPTIONS = ["valid class = model G corpus + templates", "layout space = mc/layout.py (no mid-token splits, no line-initial ';')"]
 BOUNDS = {
-    "quick": dict(layout_k=1, template_k=0, styles="quick(10)", shards=8),
-    "thorough": dict(layout_k=1, template_k=1, styles="full(192)", corpus_k2_small=True, shards=16),
+    "quick": dict(layout_k=1, template_k=0, styles="quick(10)", shards=8, focus_k=2),
+    "thorough": dict(layout_k=1, template_k=1, styles="full(192)", shards=16, focus_k=3),
 }
 
 
@@ -43,6 +43,12 @@ def plan(tier, seed):
     small = [i for i, (pid, _) in enumerate(progs) if not pid.startswith("E/")]
     for j in range(0, len(small), 8):
         tasks.append((tier, tuple(small[j : j + 8]), 0, 1))
+    # focus layer: feature-rich single statements with more simultaneous deviations
+    nf = len(layout.focus_programs())
+    fsh = 6 if tier == "quick" else 16
+    for i in range(nf):
+        for sh in range(fsh):
+            tasks.append((tier, "focus", i, sh, fsh))
     return tasks
 
 
@@ -93,13 +99,18 @@ def judge(lay, prog, std, ref_canon=None):
 
 
 def run(task):
-    tier, idx, shard, nshards = task
     res = Result()
-    progs = _get_progs(tier)
-    b = BOUNDS[tier]
-    opts = {"styles": layout.STYLES_QUICK if tier == "quick" else layout.STYLES_FULL}
-    for i in (idx if isinstance(idx, tuple) else (idx,)):
-        pid, prog = progs[i]
+    b = BOUNDS[task[0]]
+    if task[1] == "focus":
+        tier, _, fi, shard, nshards = task
+        name, prog, only = layout.focus_programs()[fi]
+        items = [("F/" + name, prog, {"only": only, "styles": layout.STYLES_FOCUS, "case": False, "indents": False}, b["focus_k"])]
+    else:
+        tier, idx, shard, nshards = task
+        progs = _get_progs(tier)
+        opts0 = {"styles": layout.STYLES_QUICK if tier == "quick" else layout.STYLES_FULL}
+        items = [(progs[i][0], progs[i][1], opts0, b["layout_k"]) for i in (idx if isinstance(idx, tuple) else (idx,))]
+    for pid, prog, opts, kk in items:
         std = G.prog_std(prog)
         o0 = try_parse(layout.canonical_text(prog), std)
         if not o0.ok:
@@ -109,7 +120,7 @@ def run(task):
         res.classes |= node_classes(o0.tree)
         stats = {}
         n = 0
-        for vec, ch, lay in explore.explore(lambda ch: layout.render_free(prog, ch, opts), b["layout_k"], stats):
+        for vec, ch, lay in explore.explore(lambda ch: layout.render_free(prog, ch, opts), kk, stats):
             n += 1
             if n % nshards != shard:
                 continue
@@ -134,9 +145,13 @@ def run(task):
 
 def replay(case):
     tier = case["tier"]
-    progs = dict(_get_progs(tier))
-    prog = progs[case["pid"]]
-    opts = {"styles": layout.STYLES_QUICK if tier == "quick" else layout.STYLES_FULL}
+    if case["pid"].startswith("F/"):
+        name, prog, only = [f for f in layout.focus_programs() if "F/" + f[0] == case["pid"]][0]
+        opts = {"only": only, "styles": layout.STYLES_FOCUS, "case": False, "indents": False}
+    else:
+        progs = dict(_get_progs(tier))
+        prog = progs[case["pid"]]
+        opts = {"styles": layout.STYLES_QUICK if tier == "quick" else layout.STYLES_FULL}
     ch, lay = explore.run(lambda ch: layout.render_free(prog, ch, opts), case["vec"])
     if "text" in case and lay.text != case["text"]:
         raise explore.Divergence("layout replay produced different text")
